@@ -304,7 +304,7 @@ B("C10", "min length 7 dropped", NET, "        if not is_domain(domain) or len(d
 B("C10", "email validates group 0", NET, "if is_domain(match.group(1))]", "if is_domain(match.group())]", "R1-validator-dominance")
 B("C10", "UNC host validated on a different value", PATHF, "                if is_domain(hostname):\n                    children.append(Node(\"network.domain\", hostname, \"\", 2, 2 + len(hostname)))", "                if is_domain(segments[2]):\n                    children.append(Node(\"network.domain\", hostname, \"\", 2, 2 + len(hostname)))", "R1-validator-dominance")
 B("C10", "is_ip check removed", NET, "        if not is_ip(ip):\n            continue\n", "", "R1-validator-dominance")
-B("C10", "url validated before trimming", NET, "        if not is_url(group):\n            continue\n        url, obfuscation", "        url, obfuscation", "R1-validator-dominance")
+B("C10", "url not validated", NET, "        if not is_url(url):\n            continue\n", "", "R1-validator-dominance")
 B("C10", "DOMAIN_RE label class gains _", NET, '(?:[a-z0-9-]+\\.)+(?:xn--', '(?:[a-z0-9_-]+\\.)+(?:xn--', "R3-alphabets")
 B("C10", "ftp -> file in is_url", NET, 'split.scheme in (b"http", b"https", b"ftp"))', 'split.scheme in (b"http", b"https", b"file"))', "R2-validators")
 B("C10", "is_url accepts any netloc", NET, "return bool(split.scheme and split.hostname and split.scheme in", "return bool(split.scheme and split.netloc and split.scheme in", "R2-validators")
